@@ -15,7 +15,7 @@ for f in args:
         res.setdefault(m.group(1), {})[m.group(2)] = int(m.group(3))
     runs.append(res)
 seeds = sorted(set().union(*[set(r) for r in runs]))
-lo, hi = {1: (1, 2), 2: (3, 4), 3: (5, 6)}[rnd]
+lo, hi = {1: (1, 2), 2: (3, 4), 3: (5, 6), 4: (7, 8)}[rnd]
 print("| seeded change | what it breaks (from its meta.json) | caught by (quick tier) | not caught by |")
 print("|---|---|---|---|")
 for s in seeds:
